@@ -403,7 +403,10 @@ func (tc *TypeChecker) ValidateObjectAgainstTypeDef(obj map[string]interface{}, 
 	// Check required fields (fields with defaults are not required)
 	for _, field := range typeDef.Fields {
 		if field.Required && field.Default == nil {
-			if _, exists := obj[field.Name]; !exists {
+			// CheckType lets null through for every type and leaves requiredness
+			// to this check, so a required field that is present but null counts
+			// as missing.
+			if fieldValue, exists := obj[field.Name]; !exists || fieldValue == nil {
 				return fmt.Errorf("missing required field: %s", field.Name)
 			}
 		}
